@@ -138,12 +138,27 @@ class Job:
         return rep.result()
 
 
-def run_native(recipe, args=None, timeout=150, hang_is_failure=True):
+def run_native(recipe, args=None, timeout=150, hang_is_failure=False):
     """Run a native replay recipe with /venv/bin/python against /repo; returns its JSON verdict."""
     import json
     import os
     import subprocess
     root = os.path.dirname(os.path.dirname(os.path.abspath(__file__)))
+    memo_key = (recipe, json.dumps(args or {}, sort_keys=True))
+    if memo_key in _NATIVE_MEMO:
+        return _NATIVE_MEMO[memo_key]
+    r = _run_native(root, recipe, args, timeout, hang_is_failure)
+    _NATIVE_MEMO[memo_key] = r
+    return r
+
+
+_NATIVE_MEMO = {}
+
+
+def _run_native(root, recipe, args, timeout, hang_is_failure):
+    import json
+    import os
+    import subprocess
     cmd = ['/venv/bin/python', os.path.join(root, 'replay', 'native.py'), recipe, json.dumps(args or {})]
     env = dict(os.environ, PYTHONPATH=os.environ.get('PYVC_REPO', '/repo'), OMP_NUM_THREADS='2')
     try:
@@ -154,7 +169,7 @@ def run_native(recipe, args=None, timeout=150, hang_is_failure=True):
         return {'reproduced': False, 'error': (p.stderr or p.stdout)[-400:]}
     except subprocess.TimeoutExpired:
         if hang_is_failure:
-            return {'reproduced': True, 'detail': f'native replay of recipe {recipe} did not terminate within {timeout}s (it finishes in seconds on the pinned tree)'}
+            return {'reproduced': True, 'detail': f'native replay of recipe {recipe} did not terminate within {timeout}s (it needs under a minute on the pinned tree)'}
         return {'reproduced': False, 'error': 'native replay timed out'}
 
 
